@@ -200,8 +200,8 @@ theorem newton_monotone_convex [Archimedean α] (S : Spec o nctCdf chi2Cdf) {n p
     rw [abs_of_nonneg (sub_nonneg.2 hm)]
     exact hj
 
-/-- non-vacuity of the concavity hypothesis: `g x = 1 - (x - 2)²` is increasing and concave on `[0, 2]`…
-the simplest instance is the linear one, `g x = x - 1`, `d = 1`: Newton lands on the root at once. -/
+/-- non-vacuity of the concavity hypothesis: the linear instance `g x = x - 1`, `d = 1` (Newton lands on
+the root at once); that the normal-cdf residual satisfies it on `R ≥ 0` is measured by the oracle. -/
 example : Newton.Concave (fun x : ℚ => x - 1) (fun _ => 1) 0 :=
   ⟨fun _ _ => one_pos, fun x y _ _ => by simp⟩
 
